@@ -129,6 +129,14 @@ claim('C15', 'table extraction from MIR (ParameterId constant, wire type argumen
       'rustc front end + MIR (both feature sets); mirfacts; wrapper pairs Locator/repr::Locator, String/StringWithNul.',
       'DESIGN.md section 4 C15')
 
+claim('C06', 'interprocedural wire-taint over the receive call graph; hazard-site enumeration (range loops, allocation sizes, index/slice/cursor ops, unwrap/assert/panic, BTreeMap::range) with discharge by type rules, dominating guards and re-checked named guards',
+      'Decides that every site where a wire-controlled value can reach a loop bound over a sequence-number range, an allocation size, an indexing / slicing / cursor operation, an explicit '
+      'panic or a BTreeMap::range on the code reachable from the receive entry points (about 580 functions) is discharged by a recognised bound or by a named guard that is re-checked on every '
+      'run (parser validity checks, cursor discipline, window limits, fit-to-buffer check); unknown sites and vanished guards are reported. Two open hazards are known findings (F2 GAP range '
+      'materialisation, F3 allocation sized by data_size), two were repaired (F1, F4); all four were demonstrated. Proportionality as a quantity and reviewed relational invariants are counted separately.',
+      'rustc front end + MIR; mirfacts; taint sources = wire submessage types, speedy reads, cursor positions; dyn calls over-approximated; panics inside dependencies only via the listed call sites; release (wrapping) arithmetic.',
+      'DESIGN.md section 4 C06')
+
 _pending = 'check not built yet in this revision (static rules designed in DESIGN.md section 4; implementation in progress)'
 for _p in ['C01', 'C02', 'C03', 'C04', 'C05', 'C06', 'C08', 'C09', 'C10', 'C11', 'C12', 'C14', 'C15', 'C16', 'C17', 'C18', 'C19', 'C20']:
     if _p not in CHECKS:
